@@ -1,4 +1,110 @@
-import ZoektModel.C26.Spec
+/-
+C26 — Binary encodings round-trip and reject garbage safely.  Property theorems; lemmas live in C26/Lemmas.lean.
+
+Statement (properties.jsonl): the compact binary encodings of repository maps, branch/repository lists and
+file-name sets decode every encoded value back to an equal value, and decoding arbitrary bytes returns a value or
+an error without panicking or allocating unboundedly.
+-/
+import ZoektModel.C26.Lemmas
 namespace ZoektModel.C26
-theorem placeholder : True := trivial
+open ZoektModel
+
+/-! ## decoding arbitrary bytes: a value or an error, no panic, linear allocation and running time -/
+
+/-- **C26, totality of `stringSetDecode`** for every byte string -/
+theorem stringset_decode_total (b : Bytes) : TotalP b.length (stringSetDecode b) := by
+  unfold stringSetDecode TotalP
+  simp only []
+  obtain ⟨a1, s1, l1⟩ := byt_ghost (Reader.init b)
+  obtain ⟨a2, s2, l2⟩ := uvarint_ghost (Reader.init b).byt.2
+  have hi : (Reader.init b).b.length = b.length ∧ (Reader.init b).alloc = b.length ∧ (Reader.init b).steps = 0 := by
+    simp [Reader.init]
+  split
+  · exact ⟨_, rfl, by simp [Reader.ret]; omega, by simp [Reader.ret]; omega⟩
+  · split
+    · exact ⟨_, rfl, by simp [Reader.ret]; omega, by simp [Reader.ret]; omega⟩
+    · rename_i hg
+      obtain ⟨res, r', h, ha, hs⟩ := strLoop_total (Reader.init b).byt.2.uvarint.1.toNat
+        ((Reader.init b).byt.2.uvarint.2.charge (Reader.init b).byt.2.uvarint.1.toNat) []
+      simp only [h, bind_ok, pure_eq]
+      refine ⟨_, rfl, ?_, ?_⟩
+      · simp [Reader.ret, Reader.charge] at ha ⊢; omega
+      · simp [Reader.ret, Reader.charge] at hs ⊢; omega
+
+/-- **C26, totality of `branchesReposDecode`** for every byte string and every behaviour of roaring's parser -/
+theorem branchesrepos_decode_total {β} (parse : Bytes → Option β) (b : Bytes) :
+    TotalP b.length (branchesReposDecode parse b) := by
+  unfold branchesReposDecode TotalP
+  simp only []
+  obtain ⟨a1, s1, l1⟩ := byt_ghost (Reader.init b)
+  obtain ⟨a2, s2, l2⟩ := uvarint_ghost (Reader.init b).byt.2
+  have hi : (Reader.init b).b.length = b.length ∧ (Reader.init b).alloc = b.length ∧ (Reader.init b).steps = 0 := by
+    simp [Reader.init]
+  split
+  · exact ⟨_, rfl, by simp [Reader.ret]; omega, by simp [Reader.ret]; omega⟩
+  · split
+    · exact ⟨_, rfl, by simp [Reader.ret]; omega, by simp [Reader.ret]; omega⟩
+    · rename_i hg
+      obtain ⟨res, r', h, ha, hs⟩ := brLoop_total parse (Reader.init b).byt.2.uvarint.1.toNat
+        ((Reader.init b).byt.2.uvarint.2.charge (Reader.init b).byt.2.uvarint.1.toNat) []
+      simp only [h, bind_ok, pure_eq]
+      refine ⟨_, rfl, ?_, ?_⟩
+      · simp [Reader.ret, Reader.charge] at ha ⊢; omega
+      · simp [Reader.ret, Reader.charge] at hs ⊢; omega
+
+/-- **C26, totality of `reposMapDecode`** (both format versions) for every byte string -/
+theorem reposmap_decode_total (b : Bytes) : TotalP b.length (reposMapDecode b) := by
+  unfold reposMapDecode TotalP
+  simp only []
+  split
+  · exact ⟨_, rfl, by simp, by simp⟩
+  · obtain ⟨a1, s1, l1⟩ := byt_ghost (Reader.init b)
+    obtain ⟨a2, s2, l2⟩ := uvarint_ghost (Reader.init b).byt.2
+    have hi : (Reader.init b).b.length = b.length ∧ (Reader.init b).alloc = b.length ∧ (Reader.init b).steps = 0 := by
+      simp [Reader.init]
+    split
+    · exact ⟨_, rfl, by simp [Reader.ret]; omega, by simp [Reader.ret]; omega⟩
+    · split
+      · exact ⟨_, rfl, by simp [Reader.ret]; omega, by simp [Reader.ret]; omega⟩
+      · rename_i hl
+        obtain ⟨a3, s3, l3⟩ := uvarint_ghost
+          ((Reader.init b).byt.2.uvarint.2.charge (Reader.init b).byt.2.uvarint.1.toNat)
+        simp only [Reader.charge] at a3 s3 l3
+        split
+        · exact ⟨_, rfl, by simp [Reader.ret, Reader.charge, a3]; omega, by simp [Reader.ret, Reader.charge, s3]; omega⟩
+        · rename_i hab
+          obtain ⟨res, r', h, ha, hs⟩ := entryLoop_total ((Reader.init b).byt.1 == 2)
+            ((Reader.init b).byt.2.uvarint.2.charge (Reader.init b).byt.2.uvarint.1.toNat).uvarint.1.toNat
+            (Reader.init b).byt.2.uvarint.1.toNat
+            (((Reader.init b).byt.2.uvarint.2.charge (Reader.init b).byt.2.uvarint.1.toNat).uvarint.2.charge
+              ((Reader.init b).byt.2.uvarint.2.charge (Reader.init b).byt.2.uvarint.1.toNat).uvarint.1.toNat)
+            [] [] (by simp)
+          simp only [h, bind_ok]
+          simp only [Reader.charge, List.length_nil] at ha hs hab
+          cases res with
+          | none => exact ⟨_, rfl, by simp [Reader.ret]; omega, by simp [Reader.ret]; omega⟩
+          | some m => exact ⟨_, rfl, by simp [Reader.ret]; omega, by simp [Reader.ret]; omega⟩
+
+/-! ## round trips -/
+
+/-- **C26, FileNameSet round trip**: for every set (given as the list `ks` of its distinct keys, in whatever order the
+    Go map is iterated), decoding the encoding returns exactly that set, without error.
+    The length hypotheses are Go's `int` range (a `string`/map cannot be larger). -/
+theorem stringset_roundtrip (ks : List Bytes) (hnd : ks.Nodup) (hk : ∀ k ∈ ks, k.length < 2 ^ 63)
+    (hn : ks.length < 2 ^ 63) :
+    decoded (stringSetDecode (stringSetEncode ks)) = some ks := by
+  have key : ∀ R : Reader, R.b = ks.flatMap encStr → R.err = false →
+      decoded (do
+        let sr ← strLoop ks.length R []
+        pure (sr.2.ret (if sr.2.err then none else some sr.1))) = some ks := by
+    intro R hb he
+    obtain ⟨r', h, _, he'⟩ := strLoop_enc ks [] [] R (by simpa using hb) he hk (by simpa using hnd)
+    simp [h, he', decoded, Reader.ret]
+  have hlen := length_le_flatMap_encStr ks
+  have hg : ¬ ((ks.length : Int) < 0 ∨ (ks.length : Int) > ((ks.flatMap encStr).length : Int)) := by omega
+  unfold stringSetDecode
+  simp only [stringSetEncode, Reader.init, Reader.byt, ne_eq, not_true_eq_false, if_false,
+    uvarint_put ks.length hn, hg, Int.toNat_natCast]
+  refine key _ ?_ ?_ <;> rfl
+
 end ZoektModel.C26
